@@ -5,6 +5,7 @@ import (
 	"encoding/json"
 	"fmt"
 	"os"
+	"strings"
 
 	"bwverif/bq"
 	"bwverif/gen"
@@ -82,6 +83,31 @@ func init() {
 			if tbl != nil {
 				fmt.Println(tbl.String())
 			}
+		}
+		return 0
+	}
+}
+
+// aux "c19sched <program index> <schedule as comma list>": run one steered
+// schedule of C19's interleaving programs and print what was observed.
+func init() {
+	Aux["c19sched"] = func(args []string) int {
+		var which int
+		fmt.Sscan(args[0], &which)
+		var schedule []int
+		for _, f := range strings.Split(args[1], ",") {
+			var k int
+			fmt.Sscan(f, &k)
+			schedule = append(schedule, k)
+		}
+		progs := c19Programs()
+		trace, ok, detail, _, hist, linear := c19RunSchedule(progs[which%len(progs)], schedule, nil)
+		for _, st := range trace {
+			fmt.Printf("  step: enabled=%v chosen=%d from=%s\n", st.enabled, st.chosen, st.point)
+		}
+		fmt.Println("final ok:", ok, detail, "linearizable:", linear)
+		for _, h := range hist {
+			fmt.Println("  ", h)
 		}
 		return 0
 	}
